@@ -112,7 +112,7 @@ static unsigned long junk_seed = 1;
 static int junk_pat;
 static long max_events = 200000, max_lex = 100000;
 static int realloc_moves = 1;
-static int resolving_wrap; /* resolve() is called for a yywrap op */
+static __thread int resolving_wrap; /* resolve() is called for a yywrap op */
 static int allow_mask; /* bit0: %array yyless after yymore; bit1: buffer switch in yywrap with yymore pending; bit2: yyinput() again after it reported end of input; bit3: return to an in-memory buffer that was scanned to its end; bit4: yywrap sets yyin while a yy_scan_bytes/string buffer is current */
 
 static const sim_scanner_vt *scanners[32];
